@@ -317,12 +317,34 @@ def run_shard(args):
 # top level
 
 
+# ---- interpreter modes: the same parts once more in a child interpreter started differently -----------------------------
+# "O": python -O (asserts stripped, __debug__ False); "W": every warning issued while library code runs is an error
+# (python -W error); a check names the parts worth repeating there in MODE_PARTS = {"OW": [part names]}.
+MODES = {"O": {"PYTHONOPTIMIZE": "1"}, "W": {"VERIF_WARN_ERROR": "1"}, "OW": {"PYTHONOPTIMIZE": "1", "VERIF_WARN_ERROR": "1"}}
+
+
+def mode_env(mode):
+    return dict(os.environ, PYTHONHASHSEED="0", VERIF_MODE=mode, **MODES[mode])
+
+
+def apply_mode():
+    """called once at start-up of a mode child"""
+    if os.environ.get("VERIF_WARN_ERROR"):
+        import warnings
+        warnings.simplefilter("error")
+        # the harness's own dependencies may warn about themselves: not the library's business
+        for m in ("hypothesis", "_pytest", "pytest", "multiprocessing"):
+            warnings.filterwarnings("default", module=m + r"(\.|$)")
+
+
 def write_replay(prop, part_name, case, signature, message):
     d = os.path.join(ROOT, "replays", prop)
     os.makedirs(d, exist_ok=True)
     body = {"property": prop, "part": part_name, "signature": signature,
             "message": message, "case": to_json(case)}
-    name = hashlib.sha1(json.dumps(body["case"], sort_keys=True).encode()).hexdigest()[:12] + ".json"
+    if os.environ.get("VERIF_MODE"):
+        body["mode"] = os.environ["VERIF_MODE"]
+    name = hashlib.sha1(json.dumps(body["case"], sort_keys=True).encode()).hexdigest()[:12] + ("-" + body["mode"] if body.get("mode") else "") + ".json"
     path = os.path.join(d, name)
     with open(path, "w") as f:
         json.dump(body, f, indent=1)
@@ -331,6 +353,10 @@ def write_replay(prop, part_name, case, signature, message):
 
 def replay(mod, path):
     body = json.load(open(path))
+    if body.get("mode") and os.environ.get("VERIF_MODE") != body["mode"]:
+        # found in a child interpreter started in another mode: replay it there
+        import subprocess
+        return subprocess.call([sys.executable, os.path.join(ROOT, "run.py"), mod.PROPERTY, "--replay", path], env=mode_env(body["mode"]))
     part = next(p for p in mod.PARTS if p.name == body["part"])
     case = from_json(body["case"])
     try:
@@ -382,9 +408,13 @@ def run_property(mod, tier, seed, jobs=None):
             return 2
 
     # 2. the parts
+    mode = os.environ.get("VERIF_MODE")
+    mode_parts = set((getattr(mod, "MODE_PARTS", None) or {}).get(mode, ())) if mode else None
     tasks = []
     for part in mod.PARTS:
         if tier not in part.tiers:
+            continue
+        if mode_parts is not None and part.name not in mode_parts:
             continue
         n = part.shards[tier]
         for s in range(n):
@@ -465,6 +495,35 @@ def run_property(mod, tier, seed, jobs=None):
     }
     if all(p.exhaustive for p in mod.PARTS if tier in p.tiers):
         coverage["exhaustive"] = True
+    # 4. the parts named in MODE_PARTS once more, in child interpreters started in another mode
+    mode_harness_error = False
+    if not mode and not violations:
+        import subprocess
+        for m, names in sorted((getattr(mod, "MODE_PARTS", None) or {}).items()):
+            r = subprocess.run([sys.executable, os.path.join(ROOT, "run.py"), prop, "--tier", tier] + (["--jobs", str(jobs)] if jobs else []),
+                               env=mode_env(m), capture_output=True, text=True)
+            sub = None
+            try:
+                sub = json.load(open(os.path.join(ROOT, ".build", "evidence-mode", "%s-%s.json" % (prop, m))))
+            except Exception:  # noqa: BLE001
+                pass
+            if r.returncode == 1:
+                lines = r.stdout.splitlines()
+                for i, ln in enumerate(lines):
+                    if ln.startswith("VIOLATION property="):
+                        msg = lines[i - 1].strip() if i and not lines[i - 1].startswith("VIOLATION") else ""
+                        violations.append((ln.split("replay=", 1)[1], "[interpreter mode %s] %s" % (m, msg), "mode-" + m))
+            elif r.returncode != 0 or sub is None:
+                sys.stderr.write(r.stdout[-3000:] + r.stderr[-3000:])
+                mode_harness_error = True
+                continue
+            coverage.setdefault("interpreter_modes", {})[m] = {
+                "what": {"O": "python -O", "W": "warnings are errors", "OW": "python -O, warnings are errors"}[m], "parts": sorted(names),
+                "evaluations": sub["coverage"]["evaluations"], "distinct_nontrivial": sub["coverage"]["distinct_nontrivial"]}
+            evaluations += sub["coverage"]["evaluations"]
+            coverage["evaluations"] = evaluations
+            coverage["distinct_nontrivial"] += sub["coverage"]["distinct_nontrivial"]
+        wall = time.time() - t0
     extra = getattr(mod, "extra_coverage", None)
     if extra is not None:
         coverage.update(extra(tier))
@@ -481,8 +540,10 @@ def run_property(mod, tier, seed, jobs=None):
     evdir = os.path.join(ROOT, "evidence")
     if os.path.realpath(os.environ.get("VERIF_REPO", "/repo")) != os.path.realpath("/repo"):
         evdir = os.path.join(ROOT, ".build", "evidence-scratch")
+    if mode:
+        evdir = os.path.join(ROOT, ".build", "evidence-mode")
     os.makedirs(evdir, exist_ok=True)
-    with open(os.path.join(evdir, prop + ".json"), "w") as f:
+    with open(os.path.join(evdir, prop + ("-" + mode if mode else "") + ".json"), "w") as f:
         json.dump(evidence, f, indent=1, sort_keys=True)
 
     for e in load_known():
@@ -496,6 +557,9 @@ def run_property(mod, tier, seed, jobs=None):
             print("  %s" % v[1])
             print("VIOLATION property=%s replay=%s" % (prop, v[0]))
         return 1
+    if mode_harness_error:
+        print("HARNESS-ERROR property=%s a child interpreter in another mode crashed" % prop)
+        return 2
     return 0
 
 
